@@ -5,7 +5,9 @@
 From Astria Require Export Quorum.QuorumModel.
 
 Record pmeta := { pm_meta : metadata; pm_wf : bool; pm_has_rollup : bool }.
-Record prollup := { pr_blob : rollup_blob; pr_wf : bool; pr_audit : bool; pr_txs : N }.
+(** [pr_own]: the entry's rollup id is the conductor's own (entries of other rollups are ignored by
+    reconstruct.rs after fix b791679, even though their Merkle audit succeeds) *)
+Record prollup := { pr_blob : rollup_blob; pr_wf : bool; pr_audit : bool; pr_txs : N; pr_own : bool }.
 
 (** one malformed entry drops the whole list of that blob *)
 Definition decode_blob {A} (wf : A -> bool) (entries : list A) : list A :=
@@ -32,7 +34,8 @@ Record out_block := { ob_meta : metadata; ob_txs : option N }.
 Definition pipeline (cf : N -> option commit_info) (next_firm : N)
     (meta_blobs : list (list pmeta)) (rollup_blobs : list (list prollup)) : N * N * N * list out_block :=
   let ms := flat_map (decode_blob pm_wf) meta_blobs in
-  let rs := flat_map (decode_blob pr_wf) rollup_blobs in
+  let rs_all := flat_map (decode_blob pr_wf) rollup_blobs in
+  let rs := filter pr_own rs_all in
   let verified := dedup_hash (verify_all cf next_firm (map pm_meta ms)) in
   let rec := reconstruct (audit_of rs) verified (map pr_blob rs) in
   let outs :=
@@ -45,4 +48,4 @@ Definition pipeline (cf : N -> option commit_info) (next_firm : N)
           end
       | None => if has_rollup ms m then [] else [{| ob_meta := m; ob_txs := None |}]
       end) rec in
-  (N.of_nat (length ms), N.of_nat (length rs), N.of_nat (length verified), outs).
+  (N.of_nat (length ms), N.of_nat (length rs_all), N.of_nat (length verified), outs).
